@@ -10,6 +10,37 @@ atoms are token strings: n T F i<int> k<name> v<slot> g<index>;  prims are tuple
 `n` = environment depth (slot that the node's value is bound to); labels l > 0 are logged, 0 is silent.
 """
 
+# fiber function signatures: name -> (arity, min_arity, collector 0/1/2, janet parameter list template)
+SIGS = {
+    "none": (0, 0, 0, "[]"),
+    "req": (1, 1, 0, "[{0}]"),
+    "opt": (1, 0, 0, "[&opt {0}]"),
+    "rest": (0, 0, 1, "[& {0}]"),
+    "optrest": (1, 0, 1, "[&opt {0} & {1}]"),
+    "reqopt": (2, 1, 0, "[{0} &opt {1}]"),
+    "reqrest": (1, 1, 1, "[{0} & {1}]"),
+    "keys": (0, 0, 2, "[&keys {0}]"),
+    "reqkeys": (1, 1, 2, "[{0} &keys {1}]"),
+    "opt2": (2, 0, 0, "[&opt {0} {1}]"),
+    "req2": (2, 2, 0, "[{0} {1}]"),          # refused by fiber/new
+}
+
+
+def nparams(sig):
+    a, m, r, _ = SIGS[sig]
+    return a + (1 if r else 0)
+
+
+def jparams(sig, n):
+    return SIGS[sig][3].format(*["v%d" % (n + i) for i in range(nparams(sig))])
+
+
+def root_of(fl):
+    """root flags string 'a' or 'a|sig|vatom' -> (flags, sig, value atom)"""
+    parts = fl.split("|")
+    return (parts[0], parts[1], parts[2]) if len(parts) == 3 else (parts[0], "none", "n")
+
+
 SUSPENDING = ("yield", "signal", "debug", "error", "propagate")
 TARGETING = ("resume", "cancel", "next")
 
@@ -30,6 +61,11 @@ def toks(t, out):
         out += ['N', str(t[1]), t[2] or '-']
         toks(t[3], out)
         toks(t[4], out)
+    elif k == 'Np':
+        a, m, r, _ = SIGS[t[2]]
+        out += ['Np', str(t[1]), str(a), str(m), str(r), t[3] or '-']
+        toks(t[4], out)
+        toks(t[5], out)
     elif k in ('B', 'C'):
         out += [k, str(t[1])]
         toks(t[2], out)
@@ -81,7 +117,9 @@ def toks(t, out):
 
 
 def model_line(t, flags, fuel=20000):
-    return "tree %s %d %s" % (flags or '-', fuel, " ".join(toks(t, [])))
+    fl, sig, v0 = root_of(flags)
+    a, m, r, _ = SIGS[sig]
+    return "tree %s %d %d %d %d %s %s" % (fl or '-', fuel, a, m, r, v0, " ".join(toks(t, [])))
 
 
 # ------------------------------------------------------------------ janet rendering
@@ -169,6 +207,8 @@ def jseq(t, n):
         return bind(n, t[1], jprim(t[1], t[2]), jseq(t[3], n + 1))
     if k == 'N':
         return bind(n, t[1], "(c05/new (fn [] (retv (do %s))) %s)" % (" ".join(jseq(t[3], n)), fl(t[2])), jseq(t[4], n + 1))
+    if k == 'Np':
+        return bind(n, t[1], "(c05/new (fn %s (retv (do %s))) %s)" % (jparams(t[2], n), " ".join(jseq(t[4], n + nparams(t[2]))), fl(t[3])), jseq(t[5], n + 1))
     if k == 'B':
         return bind(n, t[1], "(do %s)" % " ".join(jseq(t[2], n)), jseq(t[3], n + 1))
     if k == 'C':
@@ -223,7 +263,8 @@ def jseq(t, n):
 
 
 def janet_tree(idx, t, flags):
-    return "(run-tree %d (fn [] %s) %s)" % (idx, " ".join(jseq(t, 0)), fl(flags))
+    f, sig, v0 = root_of(flags)
+    return "(run-tree %d (fn %s %s) %s %s)" % (idx, jparams(sig, 0), " ".join(jseq(t, nparams(sig))), fl(f), ja(v0))
 
 
 # ------------------------------------------------------------------ static information used by the direct oracle
@@ -232,7 +273,7 @@ def site_info(t, info=None, inc=False):
     info["in_c"] = labels of instructions that execute with a janet_call frame of their own fiber live (lexically
     inside a C node, not crossing into a new fiber body)"""
     if info is None:
-        info = {"op": {}, "cleanup": {}, "bodystart": {}, "each": {}, "dyn": {}, "setdyn": {}, "in_c": set()}
+        info = {"op": {}, "cleanup": {}, "bodystart": {}, "each": {}, "dyn": {}, "setdyn": {}, "in_c": set(), "param": {}}
     k = t[0]
 
     def lab(l):
@@ -252,6 +293,12 @@ def site_info(t, info=None, inc=False):
         lab(t[1])
         site_info(t[3], info, False)
         site_info(t[4], info, inc)
+    elif k == 'Np':
+        info["op"][t[1]] = ('new', t[3])
+        lab(t[1])
+        param_labels(t[4], t[2], info)
+        site_info(t[4], info, False)
+        site_info(t[5], info, inc)
     elif k in ('B', 'C'):
         info["op"][t[1]] = (k,)
         lab(t[1])
@@ -312,6 +359,18 @@ def site_info(t, info=None, inc=False):
         site_info(t[5], info, False)
         site_info(t[6], info, inc)
     return info
+
+
+def param_labels(body, sig, info):
+    """a generated body with parameters starts: marker, then one `pure v<slot>` per parameter"""
+    t = body
+    if not (t[0] == 'P' and t[2][0] == 'pure'):
+        return
+    t = t[3]
+    for i in range(nparams(sig)):
+        if t[0] == 'P' and t[2][0] == 'pure' and t[2][1].startswith('v'):
+            info["param"][t[1]] = (sig, i)
+            t = t[3]
 
 
 def first_label(t):
@@ -390,6 +449,17 @@ class Gen:
         self.tok += 1
         return ('P', l, ('pure', mark or "i%d" % self.tok), self.seq(n + 1, vis + [n], fibs, depth, budget, ccall))
 
+    def pbody(self, n, sig, vis, fibs, depth, budget):
+        """body of a fiber function with signature `sig` whose parameters occupy slots n…: marker, one logged read per
+        parameter, then random code"""
+        np_ = nparams(sig)
+        l = self.lab()
+        self.tok += 1
+        t = self.seq(n + 2 * np_ + 1, vis + list(range(n, n + 2 * np_ + 1)), fibs, depth, budget)
+        for i in reversed(range(np_)):
+            t = ('P', self.lab(), ('pure', "v%d" % (n + i)), t)
+        return ('P', l, ('pure', "i%d" % self.tok), t)
+
     def lit(self):
         self.tok += 1
         return "i%d" % self.tok
@@ -455,13 +525,16 @@ class Gen:
                                            self.seq(n + 2, v1 + [n + 1], fibs, depth, budget - 1, ccall)))
         if kind == "new":
             self.nfib += 1
-            b = self.body(n, vis, fibs, depth + 1, sub)
+            sig = "none"
+            if r.chance(1, 2):
+                sig = r.choice([k for k in SIGS if k not in ("none", "req2")]) if not r.chance(1, 25) else "req2"
+            b = self.body(n, vis, fibs, depth + 1, sub) if sig == "none" else self.pbody(n, sig, vis, fibs, depth + 1, sub)
             if r.chance(2, 3):
                 l2 = self.lab()
                 k = ('P', l2, ('resume', "v%d" % n, self.val(v1)), self.seq(n + 2, v1 + [n + 1], fibs + [n], depth, budget - 1, ccall))
             else:
                 k = rest(True)
-            return ('N', l, self.flags(), b, k)
+            return ('N', l, self.flags(), b, k) if sig == "none" else ('Np', l, sig, self.flags(), b, k)
         if kind in ("defer", "edefer"):
             self.nfib += 1
             off = 2 if kind == "defer" else 3
@@ -511,5 +584,10 @@ class Gen:
 
     def tree(self):
         r = self.rng
+        if r.chance(1, 3):
+            sig = r.choice([k for k in SIGS if k not in ("none", "req2")])
+            self.tok += 1
+            v0 = "n" if r.chance(1, 5) else "i%d" % self.tok
+            return self.pbody(0, sig, [], [], 0, self.size), "a|%s|%s" % (sig, v0)
         t = self.body(0, [], [], 0, self.size)
         return t, "a"
